@@ -370,6 +370,11 @@ def main():
             for cv in x["contract"]:
                 run.violation({"kind": "admonition_preprocessor_word_conservation", "body_features": note_mechanism(cv["input"])}, cv)
     run.max_samples = 2
+    if run.tier == "thorough":
+        # one more workload for the contracts: the repository's own test-suite (hand-written inputs)
+        from vf import repo_tests
+
+        repo_tests.attach(run, PID)
     run.finish(floors={"evaluations": 1500, "distinct_nontrivial": 1000, "entities_docs_compared": 3000, "contract_evals_admonition_run": 3000, "namelist_member_docs_compared_with_default_display": 20,
                        "marker_style_x_markset": 18, "doc_features_generated": 20})
 
